@@ -397,6 +397,41 @@ def clause_f(c: Check):
             c.expect(ok, 'C01-f', key, 'all instructions succeeded but the step returns %s' % (
                 util.describe(p.val) if p.kind == 'return' else p.kind), fd.loc())
     c.floor('C01-f', 'paths through execute_phase_prim', len(paths), 4)
+    # which elements are executed: decision table over the kinds of element of a phase (one explicit element of each
+    # kind): an INSTRUCTION element is handed to the instruction executor exactly once (after its header executor),
+    # a COMMENT element to the comment header executor only, an EMPTY element to nothing
+    from ..absint import State, ListVal
+    et = fo.enum_members(ix.cls('exactly_lib.section_document.model:ElementType'))
+    c.require(set(et) >= {'INSTRUCTION', 'COMMENT'}, 'C01-f: ElementType members %s' % sorted(et))
+    pp = fd.positional_params()
+    for kind, member in sorted(et.items()):
+        it = Interp(ix, fo, hooks)
+        element = it.new_obj(ix.cls('exactly_lib.section_document.model:SectionContentElement'))
+        st = State()
+        st.heap[(element.oid, 'element_type')] = K(member)
+        st.heap[(element.oid, '_element_type')] = K(member)
+        contents = it.new_obj(ix.cls('exactly_lib.section_document.model:SectionContents'))
+        st.heap[(contents.oid, 'elements')] = ListVal([element], True)
+        args = {pp[0].arg: contents}
+        for prm in pp[1:]:
+            args[prm.arg] = Sym(prm.arg, nullness=False, truth=True, origin=('given', prm.arg))
+        seen = set()
+        for p in it.run_function(fd, args, st):
+            who = []
+            for e in p.calls():
+                if e.data.get('callee') == ee:
+                    who.append('instruction-executor')
+                elif isinstance(e.node.func, ast.Attribute) and e.node.func.attr == 'apply':
+                    cv = e.data.get('callee_val')
+                    r = util.root_sym(cv.origin[1]) if isinstance(cv, Sym) and cv.origin and cv.origin[0] == 'attr' else None
+                    if isinstance(r, Sym) and r.origin and r.origin[0] == 'given':
+                        who.append(r.origin[1])
+            seen.add(tuple(who))
+        want = {'INSTRUCTION': (pp[2].arg, 'instruction-executor'), 'COMMENT': (pp[1].arg,)}.get(kind, ())
+        c.expect(seen == {want}, 'C01-f', 'execute_phase_prim/element-kind/' + kind,
+                 'an element of kind %s is handed to %s (expected %s): %s' % (
+                     kind, sorted(seen), want, 'instructions are not executed' if kind == 'INSTRUCTION' else
+                     'something that is not an instruction is executed'), fd.loc())
     # execute_phase / run_instructions_phase_step propagate
     ep = ix.func(PSE_MOD + ':execute_phase')
     hooks2 = ForkHooks(ix)
